@@ -67,6 +67,8 @@ type State struct {
 	curBlock *ssa.BasicBlock
 	unstable map[string]bool
 	nonnil   map[string]bool
+	locksTouched []string
+	guardedBases map[string]string // heap base name -> lock reference term (function-scoped field guard)
 	guarded  map[string]string // object / cell / map reference term -> lock reference term that must be held
 }
 
@@ -93,10 +95,12 @@ func (s *State) clone() *State {
 		curBlock: s.curBlock,
 		unstable: make(map[string]bool, len(s.unstable)),
 		nonnil:   make(map[string]bool, len(s.nonnil)),
+		locksTouched: append([]string(nil), s.locksTouched...),
 	}
 	for k := range s.nonnil {
 		n.nonnil[k] = true
 	}
+	n.guardedBases = s.guardedBases
 	n.guarded = make(map[string]string, len(s.guarded))
 	for k, v := range s.guarded {
 		n.guarded[k] = v
@@ -156,6 +160,7 @@ type FE struct {
 	recoverChecked bool
 	locals         map[string]types.Type
 	addrVars       map[types.Object]bool
+	cellNames      map[string]bool
 	loopWriteRefs  []string
 	scanning       bool
 	frameWhole     map[string]bool
@@ -335,6 +340,7 @@ func (fe *FE) load(st *State, loc *Loc) Val {
 	}
 	if len(loc.Idx) > 0 {
 		fe.guardedAccess(st, loc.Idx[0], "load."+loc.Base, fe.curPos)
+		fe.guardedBaseAccess(st, loc, "load")
 	}
 	get := func(c comp) string {
 		arr := fe.heapTerm(st, loc.Base+c.suffix, arraySort(idxSorts(len(loc.Idx), ""), c.sort))
@@ -343,6 +349,13 @@ func (fe *FE) load(st *State, loc *Loc) Val {
 	if len(comps) == 1 {
 		v := scalar(get(comps[0]), comps[0].sort, loc.T)
 		fe.assumeClosed(st, v)
+		if cur, ok := st.heap[loc.Base]; ok && cur == loc.Base+"!0" && len(loc.Idx) > 0 && v.Sort == SInt {
+			// a location never written by this activation, of an object that existed at entry, holds an object that existed at entry
+			switch loc.T.Underlying().(type) {
+			case *types.Pointer, *types.Map, *types.Interface:
+				st.assume("(=> (<= " + loc.Idx[0] + " cnt!entry) (<= " + v.T + " cnt!entry))")
+			}
+		}
 		// a map read from a guarded field stays guarded by the same lock
 		if lf := fe.V.guardLockFn[loc.Base]; lf != "" && len(loc.Idx) > 0 && !isFreshRefTerm(loc.Idx[0]) {
 			if _, isMap := loc.T.Underlying().(*types.Map); isMap {
@@ -366,12 +379,16 @@ func (fe *FE) noteUnstableRead(st *State, loc *Loc) {
 
 // assumeClosed: references read from the heap are allocated objects.
 func (fe *FE) assumeClosed(st *State, v Val) {
+	fe.assumeClosedAt(st, v, fe.cntTerm(st))
+}
+
+func (fe *FE) assumeClosedAt(st *State, v Val, bound string) {
 	if v.Kind != VScalar || v.Sort != SInt || v.GoT == nil {
 		return
 	}
 	switch v.GoT.Underlying().(type) {
 	case *types.Pointer, *types.Map, *types.Interface, *types.Signature:
-		st.assume(fmt.Sprintf("(and (<= 0 %s) (<= %s %s))", v.T, v.T, fe.cntTerm(st)))
+		st.assume(fmt.Sprintf("(and (<= 0 %s) (<= %s %s))", v.T, v.T, bound))
 	case *types.Basic:
 		if !fe.S.BV {
 			if r := intRange(v.GoT); r != "" {
@@ -440,6 +457,7 @@ func (fe *FE) store(st *State, loc *Loc, v Val) {
 	if len(loc.Idx) > 0 {
 		fe.frameOb(st, loc.Base, loc.Idx[0])
 		fe.guardedAccess(st, loc.Idx[0], "store."+loc.Base, fe.curPos)
+		fe.guardedBaseAccess(st, loc, "store")
 	}
 	put := func(c comp, t string) {
 		name := loc.Base + c.suffix
@@ -601,6 +619,9 @@ func (fe *FE) frameOb(st *State, name, ref string) {
 	}
 	if strings.HasPrefix(name, "G_held") || strings.HasPrefix(name, "G_wg_") || strings.HasPrefix(name, "G_it") {
 		return
+	}
+	if strings.HasPrefix(name, "F_antlr_") || strings.HasPrefix(name, "F_parser_") {
+		return // internals of the antlr runtime / generated recogniser: not modelled state
 	}
 	base := name
 	if i := strings.LastIndex(base, "."); i > 0 && (strings.HasSuffix(base, ".arr") || strings.HasSuffix(base, ".off") || strings.HasSuffix(base, ".len") || strings.HasSuffix(base, ".cap")) {
